@@ -1,4 +1,4 @@
-// Command check (group "peers"): bounded-exhaustive input products against reference models.
+// Command check (group "peers"): explicit-state searches over the real daemon.Connections (C24) and pex.Pex (C26).
 package main
 
 import (
@@ -6,6 +6,9 @@ import (
 	"io"
 	"log"
 	"os"
+
+	"github.com/sirupsen/logrus"
+	"github.com/skycoin/skycoin/src/util/logging"
 
 	"verif/engine"
 )
@@ -21,6 +24,8 @@ func register(id, level string, f func(r *engine.Run)) {
 
 func main() {
 	log.SetOutput(io.Discard) // the code under test logs through the std logger on boundary inputs
+	logging.Disable()
+	logging.SetLevel(logrus.PanicLevel) // skip formatting of the (many) Critical()/Error lines; logger.Panic still panics
 	if len(os.Args) >= 3 && os.Args[1] == "--worker" {
 		w, ok := workers[os.Args[2]]
 		if !ok {
